@@ -108,14 +108,22 @@ func main() {
 		g := NewGen(*seed)
 		g.shard, g.shards = si, sn
 		n := 0
+		// A case that ends in HANG / stuck / CRASH costs its watchdog time (seconds).  On a tree where
+		// that happens at all it happens in a large share of the cases, and the first few already are
+		// the violation: after 12 such outcomes the rest of this shard's cases are skipped.
+		slowBad := 0
 		p.gen(g, *tier, func(op string, args ...string) {
 			idx := n
 			n++
-			if idx%sn != si {
+			if idx%sn != si || slowBad >= 12 {
 				return
 			}
 			id := fmt.Sprintf("%s-%d-%d", pid, *seed, idx)
-			emitLine(id, pid, op, args, safeEval(p, op, args))
+			r := safeEval(p, op, args)
+			if p.timeout > 0 && (strings.Contains(r, "HANG") || strings.Contains(r, "stuck") || strings.Contains(r, "CRASH")) {
+				slowBad++
+			}
+			emitLine(id, pid, op, args, r)
 		})
 	case "eval":
 		sc := bufio.NewScanner(os.Stdin)
